@@ -24,6 +24,8 @@ type checker struct {
 	run     *evid.Run
 	recd    *rec.Recorder
 	handler http.Handler
+	seg     string // the name under test inside the paths being served
+	encoded bool   // serve the percent-encoded spelling of seg
 }
 
 func strClass(s string) string {
@@ -170,9 +172,38 @@ func lenClass(n, limit int) string {
 	return "mid"
 }
 
+// spell returns another spelling of the same URL path: every byte outside the unreserved set, every
+// ':' and every third remaining byte of the segment s percent-encoded. A server sees both (URL.Path is
+// the decoded form, URL.RawPath what was on the wire); names are what the decoded path says.
+func spell(seg string) string {
+	var b strings.Builder
+	for i := 0; i < len(seg); i++ {
+		ch := seg[i]
+		unreserved := ch >= 'a' && ch <= 'z' || ch >= 'A' && ch <= 'Z' || ch >= '0' && ch <= '9' || ch == '-' || ch == '.' || ch == '_' || ch == '~'
+		if !unreserved && ch != '/' || ch == ':' || unreserved && i%3 == 1 {
+			fmt.Fprintf(&b, "%%%02X", ch)
+		} else {
+			b.WriteByte(ch)
+		}
+	}
+	return b.String()
+}
+
 func (c *checker) serve(method, path string) (status int, calls []*rec.Call, ok bool) {
 	c.recd.Reset()
-	req := &http.Request{Method: method, URL: &url.URL{Path: path}, Header: http.Header{}, Body: http.NoBody, Host: "registry.test", Proto: "HTTP/1.1", ProtoMajor: 1, ProtoMinor: 1}
+	u := &url.URL{Path: path}
+	if c.encoded {
+		// the same path, spelt with percent-encoding inside the name under test
+		if i := strings.Index(path, c.seg); i >= 0 && c.seg != "" {
+			u.RawPath = path[:i] + spell(c.seg) + path[i+len(c.seg):]
+			if dec, err := url.PathUnescape(u.RawPath); err != nil || dec != path {
+				u.RawPath = ""
+			} else {
+				c.run.Count("router_requests_with_encoded_spelling", 1)
+			}
+		}
+	}
+	req := &http.Request{Method: method, URL: u, Header: http.Header{}, Body: http.NoBody, Host: "registry.test", Proto: "HTTP/1.1", ProtoMajor: 1, ProtoMinor: 1}
 	w := httptest.NewRecorder()
 	ok = c.run.Case("router-total", map[string]any{"method": method, "path": path}, func() { c.handler.ServeHTTP(w, req) })
 	return w.Code, c.recd.Calls(), ok
@@ -256,13 +287,21 @@ func main() {
 	recd := rec.New(ocimem.New())
 	c := &checker{run: run, recd: recd, handler: ociserver.New(recd.Interface(), nil)}
 
+	routed := 0
 	all := func(s string, route bool) {
 		run.Eval(1)
 		vh, vr, vt, vd := c.predicates(s)
 		_ = vh
 		c.parse(s)
 		if route {
+			c.seg, c.encoded = s, false
 			c.router(s, vr, vt, vd)
+			routed++
+			if routed%3 == 0 {
+				c.encoded = true
+				c.router(s, vr, vt, vd)
+				c.encoded = false
+			}
 		}
 	}
 
